@@ -91,6 +91,13 @@ NumpyHeader(version, dict) ==
         pad == (Align - (base % Align)) % Align
     IN  dict \o Repeat(" ", pad) \o "\n"
 
+(* Alignment of the data is a courtesy of the writer, not a rule of the format (numpy before 1.14 aligned to 16 bytes, other *)
+(* writers do not pad at all): a header whose data section starts `gap' bytes BEFORE a 64-byte boundary is just as valid.   *)
+NumpyHeaderGap(version, dict, gap) ==
+    LET base == MagicLen + VersionLen + LenWidth(version) + Len(dict) + 1
+        pad == (2 * Align - gap - (base % Align)) % Align
+    IN  dict \o Repeat(" ", pad) \o "\n"
+
 (******************************* reader: dtypes *******************************)
 Types == {"f4", "f8", "i1", "i2", "i4", "i8", "u1", "u2", "u4", "u8"}
 ItemSize(t) == CASE t \in {"i1", "u1"} -> 1 [] t \in {"i2", "u2"} -> 2
